@@ -476,6 +476,59 @@ func (e *Exec) rtypeMethod(rt Rtype, name string, args []Value) Value {
 		return Bool(types.AssignableTo(t, args[0].(Iface).v.(Rtype).t))
 	case "Comparable":
 		return Bool(types.Comparable(t))
+	case "FieldByName", "Field":
+		st, ok := t.Underlying().(*types.Struct)
+		if !ok {
+			e.gopanic("reflect: " + name + " of non-struct type " + t.String())
+		}
+		sft := e.prog.ImportedPackage("reflect").Type("StructField").Type()
+		mk := func(path []int, f *types.Var) Value {
+			sf := zero(sft).(Struct)
+			sf[0] = Str{s: f.Name()}
+			if !f.Exported() && f.Pkg() != nil {
+				sf[1] = Str{s: f.Pkg().Path()}
+			}
+			sf[2] = e.rtypeIface(f.Type())
+			idx := make([]Value, len(path))
+			for i, p := range path {
+				idx[i] = Const(64, uint64(p))
+			}
+			sf[5] = Slice{o: e.newObj("StructField.Index"), v: idx, ok: true}
+			sf[6] = Bool(f.Embedded())
+			return sf
+		}
+		if name == "Field" {
+			i := e.rIndex(args[0].(*Term), st.NumFields())
+			return mk([]int{i}, st.Field(i))
+		}
+		fname := args[0].(Str)
+		if !fname.Concrete() {
+			e.cut("unsupported-symbolic:Type.FieldByName")
+		}
+		for i := 0; i < st.NumFields(); i++ {
+			if st.Field(i).Name() == fname.s {
+				return Tuple{mk([]int{i}, st.Field(i)), tTrue}
+			}
+		}
+		for i := 0; i < st.NumFields(); i++ { // promoted through one embedded struct
+			if f := st.Field(i); f.Embedded() {
+				if es, ok := f.Type().Underlying().(*types.Struct); ok {
+					for j := 0; j < es.NumFields(); j++ {
+						if es.Field(j).Name() == fname.s {
+							return Tuple{mk([]int{i, j}, es.Field(j)), tTrue}
+						}
+					}
+				}
+			}
+		}
+		return Tuple{zero(sft), tFalse}
+	case "NumField":
+		return Const(64, uint64(t.Underlying().(*types.Struct).NumFields()))
+	case "Name":
+		if n, ok := t.(*types.Named); ok {
+			return Str{s: n.Obj().Name()}
+		}
+		return Str{}
 	case "MethodByName":
 		name := args[0].(Str)
 		if !name.Concrete() {
@@ -502,6 +555,24 @@ func init() {
 		intrinsics["(reflect.Value)."+name] = func(e *Exec, a []Value) Value { return f(e, a[0].(RV), a[1:]) }
 	}
 	R("CanAddr", func(e *Exec, r RV, a []Value) Value { return Bool(r.addr) })
+	R("FieldByIndex", func(e *Exec, r RV, a []Value) Value {
+		cur := r
+		for _, iv := range a[0].(Slice).v {
+			if kindOf(cur.t) == reflect.Pointer {
+				p := cur.v.(Ptr)
+				if p.slot == nil {
+					e.gopanic("reflect: indirection through nil pointer to embedded struct")
+				}
+				cur = RV{valid: true, t: cur.t.Underlying().(*types.Pointer).Elem(), v: copyVal(*p.slot), ro: cur.ro, addr: true}
+			}
+			e.mustKind(cur, "FieldByIndex", reflect.Struct)
+			st := cur.t.Underlying().(*types.Struct)
+			i := e.rIndex(iv.(*Term), st.NumFields())
+			f := st.Field(i)
+			cur = RV{valid: true, t: f.Type(), v: copyVal(cur.v.(Struct)[i]), ro: cur.ro || !f.Exported(), addr: cur.addr}
+		}
+		return cur
+	})
 	R("IsNil", func(e *Exec, r RV, a []Value) Value {
 		e.mustKind(r, "IsNil", reflect.Chan, reflect.Func, reflect.Interface, reflect.Map, reflect.Pointer, reflect.Slice, reflect.UnsafePointer)
 		switch v := r.v.(type) {
